@@ -128,10 +128,21 @@ impl File {
         self.inner.written_size.load(Ordering::SeqCst).saturating_sub(self.synced_size())
     }
 
+    /// Appends are issued one after the other by their callers, but an append whose caller was dropped keeps running
+    /// in its blocking closure. The next append waits until that one has landed: the ranges are handed out in the order
+    /// in which the bytes reach the file (a file opened in append mode puts them at its physical end whatever offset
+    /// is passed), and a failed append can fall back to the length of the file.
+    async fn wait_for_appends_in_flight(&self) {
+        while self.inner.appends_in_flight.load(Ordering::SeqCst) > 0 {
+            tokio::time::sleep(std::time::Duration::from_millis(1)).await;
+        }
+    }
+
     pub(crate) async fn write_append_writable_data<R: Send + 'static>(
         &self,
         c: impl WritableDataCreator<R>,
     ) -> IOResult<R> {
+        self.wait_for_appends_in_flight().await;
         let len = c.len();
         let file_inner = self.inner.clone();
         if Self::can_run_inplace(len) {
@@ -188,6 +199,7 @@ impl File {
     }
 
     pub(crate) async fn write_append_all(&self, buf: Bytes) -> IOResult<()> {
+        self.wait_for_appends_in_flight().await;
         let file_inner = self.inner.clone();
         if Self::can_run_inplace(buf.len() as u64) {
             Self::inplace_sync_call(move || {
